@@ -982,9 +982,12 @@ class Driver:
                     res["re"] = {"rc": rc2, "wcount": w2, "modified": mod2, "same": same}
                     if cfg_lift[0]:
                         fh, chunks, why = lifter.parse_image(img1)
+                        # ... and the backward chain: every chunk names the payload length of the chunk before it
+                        back = next((i for i in range(len(chunks)) if chunks[i]["pprev"] != (chunks[i - 1]["plen"] if i else 0)), -1)
                         res["closed_ok"] = bool(fh.get("present") and fh.get("crc_ok") and fh.get("length") == len(img1) and why == "eof"
-                                                and chunks and chunks[-1]["tag"] == 0xFF and all(c["crc_ok"] and c["pcrc_ok"] for c in chunks))
-                        res["closed_why"] = "%s len=%s size=%d last=%s" % (why, fh.get("length"), len(img1), chunks[-1]["tag"] if chunks else None)
+                                                and chunks and chunks[-1]["tag"] == 0xFF and all(c["crc_ok"] and c["pcrc_ok"] for c in chunks)
+                                                and back < 0)
+                        res["closed_why"] = "%s len=%s size=%d last=%s back=%d" % (why, fh.get("length"), len(img1), chunks[-1]["tag"] if chunks else None, back)
                 os.write(wfd, json.dumps(res).encode())
             finally:
                 os._exit(0)
